@@ -31,6 +31,7 @@ def main():
     ap.add_argument("--skip-tests", action="store_true")
     ap.add_argument("--tier", default="quick")
     ap.add_argument("--seed", default="0")
+    ap.add_argument("--keep", action="store_true", help="copy into /verif/seeded/<name>/ when the change is confirmed")
     a = ap.parse_args()
     d = Path(a.seed_dir).resolve()
     meta = json.loads((d / "meta.json").read_text())
@@ -55,7 +56,7 @@ def main():
         out["demo_on_patched_exit"] = rc
         out["demo_tail"] = log[-300:]
         if not a.skip_tests:
-            rc, log = sh("/venv/bin/python -m pytest -q -p no:cacheprovider --timeout=900 -x -q 2>&1 | tail -3", cwd=wt, env=env, timeout=1800)
+            rc, log = sh("/venv/bin/python -m pytest -q -p no:cacheprovider --timeout=900 2>&1 | tail -2", cwd=wt, env=env, timeout=1800)
             m = re.search(r"(\d+) passed", log)
             out["tests_passed"] = int(m.group(1)) if m else 0
             out["tests_failed"] = "failed" in log or "error" in log.lower()
@@ -64,6 +65,27 @@ def main():
             rc, log = sh(f"./check {c} --tier {a.tier}", cwd=VERIF, env=env2, timeout=3600)
             viol = [l for l in log.splitlines() if l.startswith("VIOLATION")]
             out["checks"][c] = {"exit": rc, "violations": viol[:3], "tail": log[-300:] if not viol else ""}
+        confirmed = (out.get("demo_on_head_exit") == 0 and out.get("demo_on_patched_exit", 0) != 0
+                     and (a.skip_tests or (out.get("tests_passed", 0) >= 209 and not out.get("tests_failed"))))
+        out["confirmed"] = confirmed
+        if a.keep and confirmed:
+            import shutil
+            dest = VERIF / "seeded" / d.name
+            dest.mkdir(parents=True, exist_ok=True)
+            for f in ("patch.diff", "demo.py"):
+                shutil.copy(d / f, dest / f)
+            meta2 = dict(meta)
+            meta2["verified"] = {
+                "how": "harness/seedtest.py: scratch worktree of /repo HEAD; demo.py on HEAD, patch applied, demo.py again, full baseline suite, then the named checks with VERIF_REPO=<worktree>",
+                "repo_head": sh("git -C /repo rev-parse --short HEAD")[1].strip(),
+                "demo_on_head_exit": out["demo_on_head_exit"], "demo_on_patched_exit": out["demo_on_patched_exit"],
+                "baseline_tests_passed_with_patch": out.get("tests_passed"),
+                "checks": {c: {"exit": r["exit"], "detected": bool(r["violations"]),
+                               "violation_lines": [re.sub(r"replay=\S*/", "replay=", v) for v in r["violations"]]}
+                           for c, r in out["checks"].items()},
+            }
+            (dest / "meta.json").write_text(json.dumps(meta2, indent=1) + "\n")
+            out["kept"] = str(dest)
         return out
     finally:
         sh(f"git -C /repo worktree remove --force {wt}")
